@@ -79,6 +79,31 @@ class Lab(object):
 
         self.RecStream = RecStream
 
+        import io as _io
+
+        from clikit.io.output_stream import StreamOutputStream
+
+        class FileRecStream(StreamOutputStream):
+            """The library's own wrapper of a text file object (what a console I/O writes to), over an in-memory file."""
+
+            def __init__(self, ansi=False):
+                self._text = _io.StringIO()
+                StreamOutputStream.__init__(self, self._text)
+                self._ansi = ansi
+                self.fail_next = False
+
+            def supports_ansi(self):
+                return self._ansi
+
+            def fetch(self):
+                return self._text.getvalue()
+
+            def clear(self):
+                self._text.seek(0)
+                self._text.truncate()
+
+        self.FileRecStream = FileRecStream
+
     def formatter(self, fk):
         if fk == "ansi-forced":
             return self.AnsiFormatter(forced=True)
@@ -100,6 +125,8 @@ class Lab(object):
             io.output.set_stream(so)
             io.error_output.set_stream(se)
         elif kind.startswith("consoleio"):
+            # the console I/O writes through the library's stream wrapper of a file object
+            so, se = self.FileRecStream(ansi_stream), self.FileRecStream(ansi_stream)
             io = self.ConsoleIO(self.Input(self.StringInputStream("")), self.Output(so, self.formatter(fk)), self.Output(se, self.formatter(fk)))
         else:
             io = self.IO(self.Input(self.StringInputStream("")), self.Output(so, self.formatter(fk)), self.Output(se, self.formatter(fk)))
